@@ -43,6 +43,7 @@ type config struct {
 	Overlays   string
 	SolverLog  string
 	CrossCheck string
+	Internal   bool
 }
 
 var cfg config
@@ -613,7 +614,7 @@ func runJob(j job) *jobResult {
 		for _, p := range allPCs {
 			neg = append(neg, mkNot(p))
 		}
-		if len(allPCs) <= 20000 {
+		if len(allPCs) <= 600 {
 			res.Partition = z3.check(neg...)
 			if res.Partition != "unsat" {
 				inconclusive("partition check: " + res.Partition)
@@ -666,8 +667,12 @@ func firstLines(s string, n int) string {
 
 func load() {
 	overlay := map[string][]byte{}
-	for _, sub := range []string{"spdxexp", "cmd"} {
+	for _, sub := range []string{"spdxexp", "cmd", "spdxexp_internal"} {
+		if sub == "spdxexp_internal" && !cfg.Internal {
+			continue
+		}
 		files, _ := filepath.Glob(filepath.Join(cfg.Harness, sub, "*.go"))
+		tgt := strings.TrimSuffix(sub, "_internal")
 		for _, f := range files {
 			if strings.HasSuffix(f, "_test.go") {
 				continue
@@ -676,7 +681,7 @@ func load() {
 			if err != nil {
 				fatal("read harness: " + err.Error())
 			}
-			overlay[filepath.Join(cfg.Repo, sub, "zz_verif_"+filepath.Base(f))] = b
+			overlay[filepath.Join(cfg.Repo, tgt, "zz_verif_"+filepath.Base(f))] = b
 		}
 	}
 	for _, kv := range strings.Split(cfg.Overlays, ",") {
@@ -753,6 +758,7 @@ func main() {
 	flag.IntVar(&cfg.MaxViol, "maxviol", 8, "violation records kept per job")
 	flag.BoolVar(&cfg.Verbose, "v", false, "verbose")
 	flag.StringVar(&cfg.Overlays, "overlay", "", "extra source overlays virtual=real,...")
+	flag.BoolVar(&cfg.Internal, "internal", false, "also load the harnesses that use library internals (harness/spdxexp_internal)")
 	flag.StringVar(&cfg.SolverLog, "solverlog", "", "dump solver input")
 	cpuprof := flag.String("cpuprofile", "", "write a CPU profile")
 	listFuncs := flag.Bool("funcs", false, "print the functions reachable from the exported API and exit")
